@@ -152,19 +152,37 @@ def rule_new_view_membership(ctx):
 
 def rule_stale_new_view(ctx):
     R = "C05.5"
-    ctx.rule(R, "stale new-view (guard table): processing is unreachable when msg.view < self.view; a future view is started exactly when msg.view > self.view")
+    ctx.rule(R, "stale new-view (guard table over view order x author is the view's leader): certificates are processed iff msg.view > self.view, or msg.view == self.view and the author is the leader of the current view; a newer view is started exactly when msg.view > self.view")
     f = ctx.body(SM + "::on_new_view")
     T = ctx.T(f)
-    W = Walker(ctx, f, [view_cmp_atom()])
+    sig_names = common.pnames(f, "::Signed<")
+
+    def m_leader(a, b):
+        def is_author(t):
+            root, names = chain(t)
+            return names[-1:] == ["key"] and common.is_p(root, sig_names)
+
+        def is_leader(t):
+            return any(x[0] == "call" and x[1].endswith("Schedule::view_leader") for x in subterms(t))
+        if is_author(a) and is_leader(b):
+            return 1
+        if is_author(b) and is_leader(a):
+            return -1
+        return 0
+    W = Walker(ctx, f, [view_cmp_atom(), Atom("author vs leader", "cmp", m_leader, ["=", "!="])])
     proc = [c["bb"] for c in T.calls() if (c["rq"] or c["q"]) in (SM + "::process_commit_qc", SM + "::process_timeout_qc")]
     start = [c["bb"] for c in T.calls() if (c["rq"] or c["q"]) == SM + "::start_new_view"]
     ctx.floor(R, "certificate adoption calls in on_new_view", len(proc), 2)
     ctx.floor(R, "view start calls in on_new_view", len(start), 1)
     names, tab = W.table({"process": proc, "start": start})
-    for (c,), reach in sorted(tab.items()):
-        ok = (("process" in reach) == (c != "<")) and (("start" in reach) == (c == ">"))
-        ctx.ob(R, "row view%s" % c, ok, "reachable: %s (spec: old messages dropped, newer view started)" % sorted(reach) if ok else
-               "for msg.view %s self.view the handler reaches %s (expected process iff not '<', start iff '>')" % (c, sorted(reach)), f.loc())
+    leader_decided = len(set(frozenset(v) for (c, l), v in tab.items() if c == "=")) > 1
+    if not leader_decided:
+        ctx.note("C05.5: the author/leader comparison was not recognised - the same-view row is decided on the view order only")
+    for (c, l), reach in sorted(tab.items()):
+        exp_proc = c == ">" or (c == "=" and (l == "=" or not leader_decided))
+        ok = (("process" in reach) == exp_proc) and (("start" in reach) == (c == ">"))
+        ctx.ob(R, "row view%s author%sleader" % (c, l), ok, "reachable: %s (spec: old messages dropped, same-view messages only from the leader, newer view started)" % sorted(reach) if ok else
+               "for msg.view %s self.view and author %s leader the handler reaches %s (expected process iff newer view or same view from its leader, start iff newer view)" % (c, l, sorted(reach)), f.loc())
 
 
 def rule_stale_votes(ctx):
